@@ -284,8 +284,9 @@ def run_job(job, workdir, keep=False, extra_defs=(), trace_property=None):
         return r
     unwind_fail = [o for o in r.obligations if '.unwind.' in o['name'] and o['status'] == 'FAILURE'
                    and 'recursion' not in o['name']]
-    if unwind_fail and not job.bounded_is_obligation():
-        r.reason = 'unwinding assertion failed (bound too small): ' + unwind_fail[0]['name']
+    other_fail = [o for o in r.obligations if o['status'] == 'FAILURE' and '.unwind.' not in o['name']]
+    if unwind_fail and not other_fail:
+        r.reason = 'unwinding assertion failed and nothing else was refuted (bound too small): ' + unwind_fail[0]['name']
         return r
     for fam in job.expect:
         if not any(fam in n for n in names):
